@@ -171,8 +171,47 @@ def pick_chunk(rng, n):
     return rng.choice(CHUNKS)
 
 
+def gen_sweep_unit(rng):
+    """Systematic sweep: one short document, EVERY single cut position (a
+    read boundary after k items, k = 1..n-1) for a short-read text stream and
+    for non-seekable byte streams, plus every chunk size 1..min(n, 12).  Makes
+    boundary-specific defects independent of luck for short inputs."""
+    surrogates_ok = rng.random() < 0.2
+    weights = gen.make_weights(rng)
+    atoms = [gen.atom(rng, surrogates_ok, weights) for _ in range(rng.randint(1, 5))]
+    if rng.random() < 0.3:
+        atoms = [rng.choice(["<svg>", "<math>", "<table>", "<select>", "<frameset>", "<title>", "<script>", "<textarea>", "<pre>",
+                             "<!DOCTYPE html>"])] + atoms
+    text = "".join(atoms)
+    if len(text) > 48:
+        atoms = [text[:48]]
+        text = atoms[0]
+    surr = has_surrogate(text)
+    mode, container = ("frag", rng.choice(gen.CONTAINERS)) if rng.random() < 0.2 else ("doc", None)
+    base = {"prop": PROP, "atoms": atoms, "mode": mode, "container": container, "scripting": False, "encoding": None,
+            "declare": None, "strategy": "sweep"}
+    cases = []
+    n = len(text)
+    big = 1 << 30
+    for k in range(1, n):
+        cases.append(dict(base, kind="simtext", chunk=10240, src={"reads": [k], "rest": big}))
+    for c in range(1, min(n, 12) + 1):
+        cases.append(dict(base, kind="str", chunk=c, src={"reads": [], "rest": big}))
+    if not surr:
+        enc = rng.choice(["utf-8", "utf-16le", "utf-16be", "shift_jis", "windows-1252", "gb18030", "euc-kr"])
+        declare = "bom" if enc in BOMS and rng.random() < 0.6 else rng.choice(["override", "transport"])
+        payload, _chars = byte_payload(text, enc, declare)
+        kind = rng.choice(["simbytes_noseek", "simbytes_noseek", "simbytes_seek", "http_plain"])
+        for k in range(1, min(len(payload), 64)):
+            cases.append(dict(base, kind=kind, encoding=enc, declare=declare, chunk=rng.choice([10240, 10240, 1, 2, 3]),
+                              src={"reads": [k], "rest": rng.choice([big, big, 1])}))
+    return cases
+
+
 def gen_unit(rng, stream="main"):
     """-> list of cases sharing one document."""
+    if stream == "sweep":
+        return gen_sweep_unit(rng)
     surrogates_ok = rng.random() < 0.3
     atoms = gen.soup(rng, surrogates_ok=surrogates_ok)
     r0 = rng.random()
@@ -532,14 +571,16 @@ def _short_src(src):
 def plan(tier):
     """([(stream, units)], wall cap in seconds)."""
     if tier == "thorough":
-        return [("main", 400000)], 1200
-    return [("main", 24000)], 240
+        return [("main", 360000), ("sweep", 60000)], 1200
+    return [("main", 21000), ("sweep", 2500)], 240
 
 
-RULE = ("one run = one delivery of one generated document (atoms -> characters; source kind x read schedule x internal "
+RULE = ("stream main: one run = one delivery of one generated document (atoms -> characters; source kind x read schedule x internal "
         "chunk size x encoding x document/fragment) compared with the contiguous str parse of the same characters; "
         "non-trivial = at least one read boundary or chunk refill fell strictly inside the payload; distinct = distinct "
-        "SHA-1 of the explicit case (document, kind, encoding, declaration, chunk size, read schedule)")
+        "SHA-1 of the explicit case (document, kind, encoding, declaration, chunk size, read schedule); stream sweep: for one short "
+        "document every single cut position 1..n-1 (short-read text stream and non-seekable byte streams) and every chunk size "
+        "1..min(n,12)")
 EXPECTED_PROBES = ["cr_withheld", "lead_surrogate_withheld", "single_item_read_is_CR", "unget_at_chunk_start",
                    "charsUntil_spans_chunks", "bom_split_across_reads", "bufferedstream_replay", "bufferedstream_seek",
                    "multibyte_split_at_read", "doc_crosses_default_chunk", "stream_error"]
